@@ -186,12 +186,19 @@ func generatedOverlays() map[string][]byte {
 	if start < 0 || end < 0 {
 		fatal("informer.go: newSharedResourceInformer not found - adapt the C18 seam (generatedOverlays)")
 	}
-	subs := [][2]string{{"cache.NewSharedIndexInformer(", "verifNewSharedIndexInformer("}, {"dynamiclister.New(", "verifNewLister("}}
+	// (either client-go constructor of a shared index informer)
+	subs := [][3]string{{"cache.NewSharedIndexInformer(", "verifNewSharedIndexInformer(", "cache.NewSharedIndexInformerWithOptions("}, {"dynamiclister.New(", "verifNewLister(", ""}}
 	for _, sub := range subs {
 		n := 0
 		for i := start; i <= end; i++ {
-			if strings.Contains(lines[i], sub[0]) && !strings.HasPrefix(strings.TrimSpace(lines[i]), "//") {
+			if strings.HasPrefix(strings.TrimSpace(lines[i]), "//") {
+				continue
+			}
+			if strings.Contains(lines[i], sub[0]) {
 				lines[i] = strings.Replace(lines[i], sub[0], sub[1], 1)
+				n++
+			} else if sub[2] != "" && strings.Contains(lines[i], sub[2]) {
+				lines[i] = strings.Replace(lines[i], sub[2], "verifNewSharedIndexInformerWithOptions(", 1)
 				n++
 			}
 		}
